@@ -161,6 +161,10 @@ class YowNoiseLayer(YowLayer):
         :rtype:
         """
         data = bytes(data) if type(data) is not bytes else data
+        if len(data) + 16 >= 16777216:
+            # refuse before encrypting: a ciphertext that the segments layer cannot frame would
+            # already have consumed a cipher nonce and desynchronised the session
+            raise ValueError("data too large to write; length=%d" % len(data))
         self._wa_noiseprotocol.send(data)
 
     def _flush_incoming_buffer(self):
